@@ -312,6 +312,30 @@ def scenario(ctx, rng, j):
         judge(f'taproot:part:{tagh}:ok',
               [t.make_taproot_witness_scriptspend(pA, part), ltp], fields,
               True)
+    # --- a DIFFERENT script whose digest agrees with the commitment in its
+    # last (or first) one or two bytes - found by search - is still a
+    # different script
+    if j % 40 == 7:
+        hsz = rng.choice((26, 17, 26, 9))
+        lk = t.make_scripthash_lock(sS, hsz)
+        want_d = hashlib.shake_256(S).digest(hsz)
+        nb_ = 2 if hsz % 8 == 2 else 1
+        found = {}
+        for cnt in range(200_000):
+            X = isa.push(cnt.to_bytes(4, 'big') + b'\x00\x00\xac\x2f') \
+                + O('POP0') + O('TRUE')
+            dX = hashlib.shake_256(X).digest(hsz)
+            if dX == want_d:
+                continue
+            if 'suffix' not in found and dX[-nb_:] == want_d[-nb_:]:
+                found['suffix'] = X
+            if 'prefix' not in found and dX[:nb_] == want_d[:nb_]:
+                found['prefix'] = X
+            if len(found) == 2:
+                break
+        for where, X in found.items():
+            judge(f'scripthash:digest-shares-{where}', [isa.push(X), lk],
+                  fields, False)
     # --- graftroot surrogate
     ws = t.make_graftroot_witness_surrogate(A, sS)
     judge('graftroot-surrogate:ok', [ws, lg], fields, vS)
